@@ -609,3 +609,133 @@ def kinds_in(d, acc=None):
 
 
 sys.setrecursionlimit(max(sys.getrecursionlimit(), 40000))
+
+
+# ----------------------------------------------------------------------------- aliasing: the same OBJECT several times
+# Descriptions are trees; `mk_lib` builds one new library object per node, so no two positions of a stack ever hold the same object.
+# A real caller does (DUP, a shared `nil`, one Slice / Builder / continuation pushed twice).  Inside `sharing(mode, salt)` structurally
+# equal sub-descriptions that the mode selects become ONE library object (hash-consing by the description's repr): a stack description
+# with repeated parts then yields every aliasing pattern - siblings, cousins at different depths, two stack entries.  The schema
+# encoding, the canonical form and the driver tokens are functions of the description alone, so the oracle is unchanged: serialising
+# the aliased objects must give exactly what the structurally equal copies give.
+
+SHARE_MODES = ('all', 'tuples', 'leaves', 'some')
+_SHARING = []
+_mk_lib_fresh = mk_lib
+_mk_cont_fresh = mk_cont
+
+
+def _share_pick(mode, salt, d):
+    import hashlib
+    if d[0] in ('n', 'i', 'c', 'd'):
+        return False
+    if mode == 'all':
+        return True
+    if mode == 'tuples':
+        return d[0] == 't'
+    if mode == 'leaves':
+        return d[0] != 't'
+    return hashlib.blake2b(f'{salt}:{d!r}'.encode(), digest_size=1).digest()[0] & 1 == 1
+
+
+class sharing:
+    def __init__(self, mode, salt=0):
+        self.mode, self.salt, self.memo = mode, salt, {}
+
+    def __enter__(self):
+        _SHARING.append(self)
+        return self
+
+    def __exit__(self, *a):
+        _SHARING.pop()
+
+    def aliased(self):
+        """how many descriptions were handed out more than once"""
+        return sum(1 for _, n in self.memo.values() if n > 1)
+
+
+def _shared(fresh, cx, d):
+    if not _SHARING or not (isinstance(d, list) and d and isinstance(d[0], str)):
+        return fresh(cx, d)
+    sh = _SHARING[-1]
+    if not _share_pick(sh.mode, sh.salt, d):
+        return fresh(cx, d)
+    key = repr(d)
+    if key in sh.memo:
+        v, n = sh.memo[key]
+        sh.memo[key] = (v, n + 1)
+        return v
+    v = fresh(cx, d)
+    sh.memo[key] = (v, 1)
+    return v
+
+
+def mk_lib(cx, d):           # noqa: F811 - re-bound on purpose: mk_ctl / mk_cont / the tuple branch call it by its global name
+    """library value for a description; inside `with sharing(..)`: ONE object per selected distinct sub-description"""
+    return _shared(_mk_lib_fresh, cx, d)
+
+
+def mk_cont(cx, d):          # noqa: F811
+    return _shared(_mk_cont_fresh, cx, d)
+
+
+def gen_aliased_stack(rng, cx, nbase):
+    """a stack description built from a small pool of values used again and again: the same tuple twice in one tuple, at different
+    nesting levels, as several stack entries; the same slice / builder / continuation several times; the shared empty tuple"""
+    pool = [['t', []], ['t', [['i', gen_int(rng)] for _ in range(rng.choice([1, 2, 3, 4]))]]]
+    for _ in range(rng.randrange(0, 4)):
+        r = rng.random()
+        pool.append(gen_slice(rng, cx, nbase) if r < 0.25 else ['b', rng.randrange(nbase)] if r < 0.45
+                    else gen_cont(rng, cx, nbase, 1, rng.choice(['kquit', 'kqexc', 'kpush', 'kagain', 'kuntil'])) if r < 0.6
+                    else ['t', [rng.choice(pool) for _ in range(rng.choice([1, 2, 3]))]])
+
+    def build(depth):
+        n = rng.choice([1, 2, 2, 3, 4, 5])
+        items = []
+        for _ in range(n):
+            r = rng.random()
+            if r < 0.5:
+                items.append(rng.choice(pool))
+            elif r < 0.8 and depth > 0:
+                items.append(build(depth - 1))
+            else:
+                items.append(['i', gen_int(rng)] if rng.random() < 0.7 else ['n'])
+        t = ['t', items]
+        if rng.random() < 0.3:
+            pool.append(t)
+        return t
+    stack = []
+    for _ in range(rng.choice([1, 1, 2, 3, 5])):
+        r = rng.random()
+        stack.append(build(rng.choice([1, 2, 3])) if r < 0.6 else rng.choice(pool) if r < 0.9 else gen_val(rng, cx, nbase, 2))
+    return stack
+
+
+def aliased_directed():
+    """the aliasing patterns spelled out (stack descriptions; every repeated part becomes one object under sharing('all'))"""
+    t = ['t', [['i', 1], ['i', 2]]]
+    u = ['t', [['i', 2 ** 63], ['n'], ['i', -5]]]
+    nil = ['t', []]
+    one = ['t', [['i', 7]]]
+    s, b, q = ['s', 3, 5, 1], ['b', 2], ['kpush', 3, ['kquit', 0]]
+    lisp = nil
+    for k in range(4):
+        lisp = ['t', [['i', k], lisp]]
+    return [
+        [['t', [t, t]]],                                        # DUP then pair: siblings
+        [['t', [t, t, t]]], [['t', [t, t, t, t]]],              # 3+ : the chained prefix tuples
+        [['t', [nil, nil]]], [['t', [one, one]]],               # shared nil / singleton
+        [['t', [t, ['t', [t]]]]],                               # cousins: depth 1 and depth 2
+        [['t', [['t', [t]], t]]],
+        [['t', [['t', [['t', [t, ['i', 0]]], ['i', 1]]], t]]],   # depth 3 and depth 1
+        [['t', [['t', [t, u]], ['t', [u, t]]]]],                # two shared tuples crossing
+        [t, t], [t, ['i', 5], t], [['t', [t]], t],              # two stack entries / entry and nested
+        [['t', [t, t]], ['t', [t, t]]],                         # the pair itself shared
+        [lisp], [['t', [lisp, ['t', [['i', 9], nil]]]]],         # lisp-style lists ending in the one nil
+        [['t', [['t', [nil, nil]], nil]]],
+        [s, s], [['t', [s, s]]], [['t', [s, ['t', [s]]]]],      # the same Slice object
+        [b, b], [['t', [b, b]]], [b, ['t', [b]]],               # the same Builder object
+        [q, q], [['t', [q, q]]], [['krep', 2, q, q]],           # the same continuation object
+        [['kenv', ['d', None, [t, t], None, None], q], t],      # inside control data and on the stack
+        [['t', [['c', 2], ['c', 2]]], ['c', 2]],
+    ]
